@@ -363,7 +363,7 @@ class Summariser:
             self.cache[key] = s
         return s
 
-    def inlinable(self, fn: FunctionInfo | None, tail: bool = False) -> bool:
+    def inlinable(self, fn: FunctionInfo | None, tail: bool = False, allow_yield: bool = False) -> bool:
         if fn is None or fn.qualname in KNOWN_FUNCTIONS:
             return False
         if fn.qualname in self.__dict__.get("_building", ()):
@@ -381,6 +381,8 @@ class Summariser:
         if any(d not in ("staticmethod", "classmethod") and not _is_cache_decorator(d) for d in fn.decorators):
             return False
         for n in ast.walk(fn.node):
+            if isinstance(n, (ast.Yield, ast.YieldFrom)) and allow_yield:
+                continue
             if isinstance(n, (ast.Yield, ast.YieldFrom, ast.Await)):
                 return False
             # a `return` inside a loop cannot be spliced into the caller's path structure
@@ -570,6 +572,273 @@ def _len_truth(test, pol):
     return test, pol
 
 
+def _is_generator(fn: FunctionInfo) -> bool:
+    stack = list(fn.node.body)
+    while stack:
+        n = stack.pop()
+        if isinstance(n, (ast.FunctionDef, ast.AsyncFunctionDef, ast.Lambda, ast.ClassDef)):
+            continue
+        if isinstance(n, (ast.Yield, ast.YieldFrom)):
+            return True
+        stack.extend(ast.iter_child_nodes(n))
+    return False
+
+
+class _Eager(ast.NodeTransformer):
+    """yield E -> acc.append(E); yield from X -> acc.extend(X); return -> return acc.  Values SENT into the generator
+    (``x = yield``) have no eager reading."""
+
+    ACC = "__yielded"
+
+    def __init__(self) -> None:
+        self.ok = True
+
+    def visit_FunctionDef(self, node):
+        return node
+
+    visit_AsyncFunctionDef = visit_Lambda = visit_ClassDef = visit_FunctionDef
+
+    def visit_Expr(self, node):
+        v = node.value
+        if isinstance(v, ast.Yield):
+            call = ast.Call(func=ast.Attribute(value=ast.Name(id=self.ACC, ctx=ast.Load()), attr="append", ctx=ast.Load()), args=[v.value or ast.Constant(value=None)], keywords=[])
+            return ast.copy_location(ast.Expr(value=call), node)
+        if isinstance(v, ast.YieldFrom):
+            call = ast.Call(func=ast.Attribute(value=ast.Name(id=self.ACC, ctx=ast.Load()), attr="extend", ctx=ast.Load()), args=[v.value], keywords=[])
+            return ast.copy_location(ast.Expr(value=call), node)
+        return self.generic_visit(node)
+
+    def visit_Yield(self, node):
+        self.ok = False
+        return node
+
+    visit_YieldFrom = visit_Yield
+
+    def visit_Return(self, node):
+        return ast.copy_location(ast.Return(value=ast.Name(id=self.ACC, ctx=ast.Load())), node)
+
+
+def generator_as_genexp(fn: FunctionInfo, call: ast.Call) -> ast.GeneratorExp | None:
+    """A generator function whose body is one chain ``for .. [if ..] [for ..] .. yield E`` IS a generator expression;
+    a call of it with plain arguments (names, attribute chains, literals) is that expression with the arguments in
+    place of the parameters - laziness, order and multiplicity included."""
+    import copy
+
+    body = list(fn.node.body)
+    if body and isinstance(body[0], ast.Expr) and isinstance(body[0].value, ast.Constant) and isinstance(body[0].value.value, str):
+        body = body[1:]
+    if len(body) != 1 or not isinstance(body[0], ast.For):
+        return None
+    gens: list = []
+    node = body[0]
+    elt = None
+    while True:
+        if isinstance(node, ast.For) and not node.orelse and len(node.body) == 1:
+            gens.append(ast.comprehension(target=node.target, iter=node.iter, ifs=[], is_async=0))
+            node = node.body[0]
+        elif isinstance(node, ast.If) and not node.orelse and len(node.body) == 1 and gens:
+            gens[-1].ifs.append(node.test)
+            node = node.body[0]
+        elif isinstance(node, ast.Expr) and isinstance(node.value, ast.Yield) and node.value.value is not None and gens:
+            elt = node.value.value
+            break
+        else:
+            return None
+    # arguments: plain expressions only, bound by position / keyword to the parameters
+    def plain(e):
+        return isinstance(e, (ast.Name, ast.Constant)) or (isinstance(e, ast.Attribute) and plain(e.value))
+
+    params = list(fn.params)
+    mapping: dict = {}
+    if fn.cls is not None and not fn.is_staticmethod:
+        if not (isinstance(call.func, ast.Attribute) and plain(call.func.value)) or not params:
+            return None
+        mapping[params[0].name] = call.func.value
+        params = params[1:]
+    pos = [p_ for p_ in params if p_.kind == "pos"]
+    if any(isinstance(a, ast.Starred) for a in call.args) or any(k.arg is None for k in call.keywords) or len(call.args) > len(pos):
+        return None
+    for p_, a in zip(pos, call.args):
+        mapping[p_.name] = a
+    for k in call.keywords:
+        if fn.param(k.arg) is None:
+            return None
+        mapping[k.arg] = k.value
+    for p_ in params:
+        if p_.name not in mapping:
+            if p_.default is None or not plain(p_.default) or p_.kind in ("vararg", "kwarg"):
+                return None
+            mapping[p_.name] = p_.default
+    if not all(plain(v) for v in mapping.values()):
+        return None
+    ge = ast.GeneratorExp(elt=copy.deepcopy(elt), generators=copy.deepcopy(gens))
+    bound = {n.id for g in ge.generators for n in ast.walk(g.target) if isinstance(n, ast.Name)}
+    if bound & set(mapping):
+        return None
+
+    class Sub(ast.NodeTransformer):
+        def visit_Name(self, n):
+            if isinstance(n.ctx, ast.Load) and n.id in mapping:
+                return ast.copy_location(copy.deepcopy(mapping[n.id]), n)
+            return n
+
+    ge = Sub().visit(ge)
+    # the arguments must not be captured by the comprehension's own variables
+    if any(isinstance(n, ast.Name) and n.id in bound for v in mapping.values() for n in ast.walk(v)):
+        return None
+    ast.copy_location(ge, call)
+    return ast.fix_missing_locations(ge)
+
+
+class _AsDict(ast.NodeTransformer):
+    """yield K, V -> acc[K] = V  (what ``dict(gen(..))`` builds)."""
+
+    ACC = "__yielded"
+
+    def __init__(self) -> None:
+        self.ok = True
+
+    def visit_FunctionDef(self, node):
+        return node
+
+    visit_AsyncFunctionDef = visit_Lambda = visit_ClassDef = visit_FunctionDef
+
+    def visit_Expr(self, node):
+        v = node.value
+        if isinstance(v, ast.Yield) and isinstance(v.value, ast.Tuple) and len(v.value.elts) == 2 and not any(isinstance(e, ast.Starred) for e in v.value.elts):
+            tgt = ast.Subscript(value=ast.Name(id=self.ACC, ctx=ast.Load()), slice=v.value.elts[0], ctx=ast.Store())
+            return ast.copy_location(ast.Assign(targets=[tgt], value=v.value.elts[1]), node)
+        if isinstance(v, (ast.Yield, ast.YieldFrom)):
+            self.ok = False
+            return node
+        return self.generic_visit(node)
+
+    def visit_Yield(self, node):
+        self.ok = False
+        return node
+
+    visit_YieldFrom = visit_Yield
+
+    def visit_Return(self, node):
+        return ast.copy_location(ast.Return(value=ast.Name(id=self.ACC, ctx=ast.Load())), node)
+
+
+def dict_twin(model: Model, fn: FunctionInfo) -> FunctionInfo | None:
+    if eager_twin(model, fn) is None:
+        return None
+    memo = model.__dict__.setdefault("_dict_twins", {})
+    if fn.qualname in memo:
+        return memo[fn.qualname]
+    import copy
+
+    node = copy.deepcopy(fn.node)
+    tr = _AsDict()
+    body = [tr.visit(st_) for st_ in node.body]
+    twin = None
+    if tr.ok:
+        doc = [body[0]] if body and isinstance(body[0], ast.Expr) and isinstance(body[0].value, ast.Constant) and isinstance(body[0].value.value, str) else []
+        init = ast.Assign(targets=[ast.Name(id=_AsDict.ACC, ctx=ast.Store())], value=ast.Dict(keys=[], values=[]))
+        fin = ast.Return(value=ast.Name(id=_AsDict.ACC, ctx=ast.Load()))
+        last = fn.node.body[-1]
+        ast.copy_location(init, fn.node.body[len(doc)] if len(fn.node.body) > len(doc) else fn.node)
+        ast.copy_location(fin, last)
+        fin.lineno = getattr(last, "end_lineno", last.lineno)
+        node.body = doc + [init] + body[len(doc) :] + [fin]
+        ast.fix_missing_locations(node)
+        twin = FunctionInfo(fn.qualname + "#dict", fn.name, fn.module, node, fn.cls, fn.parent, list(fn.decorators), list(fn.params))
+    memo[fn.qualname] = twin
+    return twin
+
+
+class _First(ast.NodeTransformer):
+    """yield E -> return (E,); yield from X -> for y in X: return (y,).  What `next(gen, d)` / `for x in gen: return x`
+    take from a generator: the first thing it yields, or nothing."""
+
+    def __init__(self) -> None:
+        self.ok = True
+        self.k = 0
+
+    def visit_FunctionDef(self, node):
+        return node
+
+    visit_AsyncFunctionDef = visit_Lambda = visit_ClassDef = visit_FunctionDef
+
+    def visit_Expr(self, node):
+        v = node.value
+        if isinstance(v, ast.Yield):
+            return ast.copy_location(ast.Return(value=ast.Tuple(elts=[v.value or ast.Constant(value=None)], ctx=ast.Load())), node)
+        if isinstance(v, ast.YieldFrom):
+            self.k += 1
+            y = f"__first_{self.k}"
+            loop = ast.For(target=ast.Name(id=y, ctx=ast.Store()), iter=v.value, body=[ast.Return(value=ast.Tuple(elts=[ast.Name(id=y, ctx=ast.Load())], ctx=ast.Load()))], orelse=[])
+            return ast.copy_location(loop, node)
+        return self.generic_visit(node)
+
+    def visit_Yield(self, node):
+        self.ok = False
+        return node
+
+    visit_YieldFrom = visit_Yield
+
+    def visit_Return(self, node):
+        return ast.copy_location(ast.Return(value=ast.Tuple(elts=[], ctx=ast.Load())), node)
+
+
+def first_twin(model: Model, fn: FunctionInfo) -> FunctionInfo | None:
+    """The function that returns ``(first yielded value,)`` or ``()``: see _First."""
+    if eager_twin(model, fn) is None:
+        return None
+    memo = model.__dict__.setdefault("_first_twins", {})
+    if fn.qualname in memo:
+        return memo[fn.qualname]
+    import copy
+
+    node = copy.deepcopy(fn.node)
+    tr = _First()
+    body = [tr.visit(st_) for st_ in node.body]
+    twin = None
+    if tr.ok:
+        fin = ast.Return(value=ast.Tuple(elts=[], ctx=ast.Load()))
+        last = fn.node.body[-1]
+        ast.copy_location(fin, last)
+        fin.lineno = getattr(last, "end_lineno", last.lineno)
+        node.body = body + [fin]
+        ast.fix_missing_locations(node)
+        twin = FunctionInfo(fn.qualname + "#first", fn.name, fn.module, node, fn.cls, fn.parent, list(fn.decorators), list(fn.params))
+    memo[fn.qualname] = twin
+    return twin
+
+
+def eager_twin(model: Model, fn: FunctionInfo) -> FunctionInfo | None:
+    """For a generator function that is not an anchor of the rule set: the function that returns the list of what
+    it yields (same parameters).  None for anything else."""
+    if fn.qualname in KNOWN_FUNCTIONS or fn.qualname.endswith(("#eager", "#first", "#dict")) or isinstance(fn.node, ast.AsyncFunctionDef):
+        return None
+    memo = model.__dict__.setdefault("_eager_twins", {})
+    if fn.qualname in memo:
+        return memo[fn.qualname]
+    twin = None
+    if _is_generator(fn) and not any(d not in ("staticmethod", "classmethod") for d in fn.decorators):
+        import copy
+
+        node = copy.deepcopy(fn.node)
+        tr = _Eager()
+        body = [tr.visit(st_) for st_ in node.body]
+        if tr.ok:
+            init = ast.Assign(targets=[ast.Name(id=_Eager.ACC, ctx=ast.Store())], value=ast.List(elts=[], ctx=ast.Load()))
+            fin = ast.Return(value=ast.Name(id=_Eager.ACC, ctx=ast.Load()))
+            doc = [body[0]] if body and isinstance(body[0], ast.Expr) and isinstance(body[0].value, ast.Constant) and isinstance(body[0].value.value, str) else []
+            node.body = doc + [init] + body[len(doc) :] + [fin]
+            last = fn.node.body[-1]
+            ast.copy_location(init, fn.node.body[len(doc)] if len(fn.node.body) > len(doc) else fn.node)
+            ast.copy_location(fin, last)
+            fin.lineno = getattr(last, "end_lineno", last.lineno)
+            ast.fix_missing_locations(node)
+            twin = FunctionInfo(fn.qualname + "#eager", fn.name, fn.module, node, fn.cls, fn.parent, list(fn.decorators), list(fn.params))
+    memo[fn.qualname] = twin
+    return twin
+
+
 class _Builder:
     def __init__(self, model: Model, fn: FunctionInfo, owner: "Summariser | None" = None, specialise: bool = True, bind: dict | None = None) -> None:
         self.model = model
@@ -618,8 +887,26 @@ class _Builder:
         return summ
 
     # ------------------------------------------------------------------ helper inlining
-    def resolve_callee(self, t) -> FunctionInfo | None:
-        """The package function a call term invokes, if it can be resolved."""
+    def resolve_callee(self, t, generators_as_written: bool = False) -> FunctionInfo | None:
+        """The package function a call term invokes, if it can be resolved.  A generator function the rule set does
+        not know by name is answered with its EAGER TWIN (the list of what it yields): a loop moved into a small
+        generator that its caller consumes at once reads like the loop it was."""
+        callee = self._resolve_callee(t)
+        if callee is not None and not generators_as_written:
+            if getattr(self, "_want_first", False):
+                twin = first_twin(self.model, callee)
+                if twin is not None:
+                    return twin
+            if getattr(self, "_want_dict", False):
+                twin = dict_twin(self.model, callee)
+                if twin is not None:
+                    return twin
+            twin = eager_twin(self.model, callee)
+            if twin is not None:
+                return twin
+        return callee
+
+    def _resolve_callee(self, t) -> FunctionInfo | None:
         if op(t) != "call":
             return None
         f = t[1]
@@ -675,12 +962,14 @@ class _Builder:
             out[q.name] = self.low.expr(q.default, {})
         return out
 
-    def inline_call(self, t, p: Path, line: int, tail: bool = False):
+    def inline_call(self, t, p: Path, line: int, tail: bool = False, as_generator: bool = False):
         """Execute an inlinable helper in place.  Returns list of (path, value term) or None."""
         if self.owner is None or len(self.inline_stack) >= 3:
             return None
-        callee = self.resolve_callee(t)
-        if callee is None or not self.owner.inlinable(callee, tail=tail) or callee.qualname in self.inline_stack:
+        callee = self.resolve_callee(t, generators_as_written=as_generator)
+        if as_generator and (callee is None or not _is_generator(callee) or eager_twin(self.model, callee) is None):
+            return None
+        if callee is None or not self.owner.inlinable(callee, tail=tail, allow_yield=as_generator) or callee.qualname in self.inline_stack:
             return None
         bound = self._bind(callee, t)
         if bound is None:
@@ -704,7 +993,9 @@ class _Builder:
             for ln, terms in sub.syntactic_terms(body).items():
                 from .terms import substitute
 
-                mp = {("param", k): v for k, v in bound.items()}
+                # an argument that is itself computed by a call was evaluated ONCE, at the call site: inside the
+                # helper it is a value (an opaque local), not another call of that function
+                mp = {("param", k): (v if not any(op(y) == "call" for y in subterms(v)) else ("lv", k)) for k, v in bound.items()}
                 self.extra_syn.setdefault(ln, []).extend(substitute(x, mp) for x in terms)
         finally:
             self.inline_stack.pop()
@@ -875,7 +1166,188 @@ class _Builder:
         return {k: tuple(v) for k, v in out.items()}
 
     # ------------------------------------------------------------------ blocks
+    def _hoist_generator_calls(self, st: ast.stmt) -> list[ast.stmt] | None:
+        """``list(_iter(x))`` / ``dict(_pairs(c))`` / ``for r in _iter(..)`` / ``next(self._iter(p), None)`` with
+        ``_iter`` a generator helper the rules do not know: the call is lifted into a statement of its own
+        (``__gen = _iter(x)``) in front, where the helper is read through as its eager twin.  Not out of
+        comprehensions, lambdas, conditional operands (evaluated later, repeatedly or not at all) - and not the
+        operand of ``yield from``, which is read through as written."""
+        if self.owner is None:
+            return None
+        if isinstance(st, (ast.Assign, ast.AnnAssign, ast.AugAssign, ast.Return, ast.Expr)):
+            roots = [("value", st.value)] if getattr(st, "value", None) is not None else []
+        elif isinstance(st, ast.For):
+            roots = [("iter", st.iter)]
+        elif isinstance(st, ast.If):
+            roots = [("test", st.test)]
+        elif isinstance(st, ast.Raise) and st.exc is not None:
+            roots = [("exc", st.exc)]
+        else:
+            return None
+        if not roots:
+            return None
+        field_, root = roots[0]
+        if isinstance(root, (ast.YieldFrom, ast.Yield)) and isinstance(getattr(root, "value", None), ast.Call):
+            if isinstance(root, ast.YieldFrom):
+                return None
+        mod, fn = self.low.mod, self.fn
+        found: list = []
+        firsts: list = []  # (node to replace, generator call, default expression or None)
+        dicts: list = []  # (dict(..) node to replace, generator call)
+        targets_of: dict = {}
+
+        def is_gen_helper(call: ast.Call):
+            f = call.func
+            target = None
+            if isinstance(f, ast.Name):
+                r = self.model.resolve_global(mod, f.id) if f.id not in {p_.name for p_ in fn.params} else None
+                if fn.parent is not None or True:
+                    cur = fn
+                    while cur is not None and target is None:
+                        if f.id in cur.nested:
+                            target = cur.nested[f.id]
+                        cur = cur.parent
+                if target is None and r and r[0] == "func":
+                    target = r[1]
+            elif isinstance(f, ast.Attribute) and isinstance(f.value, ast.Name) and fn.cls is not None and f.value.id in (fn.self_name, "cls"):
+                target = self.model.find_method(fn.cls, f.attr)
+            if target is None or target.is_property:
+                return False
+            if eager_twin(self.model, target) is None:
+                return False
+            targets_of[id(call)] = target
+            return True
+
+        def walk(n, top: bool):
+            if isinstance(n, (ast.Lambda, ast.ListComp, ast.SetComp, ast.DictComp, ast.GeneratorExp, ast.IfExp, ast.NamedExpr, ast.Await)):
+                return
+            if isinstance(n, ast.BoolOp):
+                walk(n.values[0], False)
+                return
+            if isinstance(n, ast.Call) and isinstance(n.func, ast.Name) and n.func.id == "dict" and len(n.args) == 1 and not n.keywords and isinstance(n.args[0], ast.Call) and is_gen_helper(n.args[0]) and dict_twin(self.model, targets_of[id(n.args[0])]) is not None:
+                dicts.append((n, n.args[0]))
+                return
+            if isinstance(n, ast.Call) and not top and is_gen_helper(n):
+                found.append(n)
+                return
+            for c in ast.iter_child_nodes(n):
+                walk(c, False)
+
+        # a generator helper of this module that IS a generator expression: written out in place
+        import copy as _copy
+
+        swaps = {}
+        for n_ in ast.walk(root):
+            if isinstance(n_, ast.Call) and is_gen_helper(n_):
+                tg = targets_of.get(id(n_))
+                if tg is not None and tg.module is mod:
+                    ge = generator_as_genexp(tg, n_)
+                    if ge is not None:
+                        swaps[id(n_)] = ge
+        if swaps:
+
+            class Swap(ast.NodeTransformer):
+                def visit_Call(self, node):
+                    if id(node) in swaps:
+                        return swaps[id(node)]
+                    return self.generic_visit(node)
+
+            st2 = _copy.copy(st)
+            setattr(st2, field_, Swap().visit(root))
+            again = self._hoist_generator_calls(st2)
+            return again if again is not None else [st2]
+        # `for x in gen(..): return x` takes the first thing the generator yields
+        if isinstance(st, ast.For) and isinstance(st.iter, ast.Call) and is_gen_helper(st.iter) and isinstance(st.target, ast.Name) and not st.orelse and len(st.body) == 1 and isinstance(st.body[0], ast.Return) and isinstance(st.body[0].value, ast.Name) and st.body[0].value.id == st.target.id:
+            name = f"__first_gen_{st.lineno}"
+            asg = ast.Assign(targets=[ast.Name(id=name, ctx=ast.Store())], value=st.iter)
+            ret = ast.Return(value=ast.Subscript(value=ast.Name(id=name, ctx=ast.Load()), slice=ast.Constant(value=0), ctx=ast.Load()))
+            cond = ast.If(test=ast.Name(id=name, ctx=ast.Load()), body=[ret], orelse=[])
+            for n_ in (asg, cond):
+                ast.copy_location(n_, st)
+                for sub in ast.walk(n_):
+                    if not hasattr(sub, "lineno"):
+                        ast.copy_location(sub, st)
+                ast.fix_missing_locations(n_)
+            ast.copy_location(ret, st.body[0])
+            return [asg, cond]
+
+        def walk_first(n):
+            """next(gen(..), default) anywhere outside lazily evaluated positions"""
+            if isinstance(n, (ast.Lambda, ast.ListComp, ast.SetComp, ast.DictComp, ast.GeneratorExp, ast.IfExp, ast.NamedExpr, ast.Await)):
+                return
+            if isinstance(n, ast.BoolOp):
+                walk_first(n.values[0])
+                return
+            if isinstance(n, ast.Call) and isinstance(n.func, ast.Name) and n.func.id == "next" and len(n.args) == 2 and not n.keywords and isinstance(n.args[0], ast.Call) and is_gen_helper(n.args[0]):
+                firsts.append((n, n.args[0], n.args[1]))
+                return
+            for c in ast.iter_child_nodes(n):
+                walk_first(c)
+
+        walk_first(root)
+        skip = {id(c) for _, c, _ in firsts}
+        walk(root, True)
+        found[:] = [c for c in found if id(c) not in skip]
+        if not found and not firsts and not dicts:
+            return None
+        import copy
+
+        pre = []
+        mapping = {}
+        first_map = {}
+        for k, (node_, call) in enumerate(dicts):
+            name = f"__dict_gen_{st.lineno}_{k}"
+            asg = ast.Assign(targets=[ast.Name(id=name, ctx=ast.Store())], value=call)
+            ast.copy_location(asg, st)
+            ast.fix_missing_locations(asg)
+            pre.append(asg)
+            mapping[id(node_)] = name
+        for k, (node_, call, dflt) in enumerate(firsts):
+            name = f"__first_gen_{st.lineno}_{k}"
+            asg = ast.Assign(targets=[ast.Name(id=name, ctx=ast.Store())], value=call)
+            ast.copy_location(asg, st)
+            ast.fix_missing_locations(asg)
+            pre.append(asg)
+            first_map[id(node_)] = (name, dflt)
+        for k, call in enumerate(found):
+            name = f"__gen_{st.lineno}_{k}"
+            asg = ast.Assign(targets=[ast.Name(id=name, ctx=ast.Store())], value=call)
+            ast.copy_location(asg, st)
+            ast.fix_missing_locations(asg)
+            pre.append(asg)
+            mapping[id(call)] = name
+
+        class Repl(ast.NodeTransformer):
+            def visit_Call(self, node):
+                if id(node) in mapping:
+                    return ast.copy_location(ast.Name(id=mapping[id(node)], ctx=ast.Load()), node)
+                if id(node) in first_map:
+                    nm, dflt = first_map[id(node)]
+                    e = ast.IfExp(test=ast.Name(id=nm, ctx=ast.Load()), body=ast.Subscript(value=ast.Name(id=nm, ctx=ast.Load()), slice=ast.Constant(value=0), ctx=ast.Load()), orelse=dflt)
+                    return ast.fix_missing_locations(ast.copy_location(e, node))
+                return self.generic_visit(node)
+
+        st2 = copy.copy(st)
+        setattr(st2, field_, Repl().visit(root))
+        return pre + [st2]
+
     def block(self, stmts: list[ast.stmt], paths: list[Path], loop_body: bool = False) -> list[Path]:
+        if any(isinstance(st, (ast.Assign, ast.AnnAssign, ast.AugAssign, ast.Return, ast.Expr, ast.For, ast.If, ast.Raise)) for st in stmts) and not getattr(self, "_hoisting", False):
+            out_stmts: list[ast.stmt] = []
+            changed = False
+            for st in stmts:
+                self._hoisting = True
+                try:
+                    h = self._hoist_generator_calls(st)
+                finally:
+                    self._hoisting = False
+                if h is None:
+                    out_stmts.append(st)
+                else:
+                    out_stmts.extend(h)
+                    changed = True
+            if changed:
+                stmts = out_stmts
         for i, st in enumerate(stmts):
             if isinstance(st, ast.Assign) and isinstance(st.value, ast.Call) and any(p.out is None for p in paths):
                 fm = self._first_match_inline(st, stmts[i + 1 :], loop_body, next(p for p in paths if p.out is None))
@@ -1072,6 +1544,18 @@ class _Builder:
         return out
 
     def stmt(self, st: ast.stmt, p: Path) -> list[Path]:
+        if isinstance(st, ast.Assign) and len(st.targets) == 1 and isinstance(st.targets[0], ast.Name) and st.targets[0].id.startswith("__first_gen_"):
+            self._want_first = True
+            try:
+                return self.s_Assign(st, p)
+            finally:
+                self._want_first = False
+        if isinstance(st, ast.Assign) and len(st.targets) == 1 and isinstance(st.targets[0], ast.Name) and st.targets[0].id.startswith("__dict_gen_"):
+            self._want_dict = True
+            try:
+                return self.s_Assign(st, p)
+            finally:
+                self._want_dict = False
         m = getattr(self, "s_" + type(st).__name__, None)
         if m is None:
             p.events.append(self.E("unknown", st.lineno, ("unk", type(st).__name__)))
@@ -1080,6 +1564,80 @@ class _Builder:
 
     def ex(self, e, p: Path) -> tuple:
         return self.inline_terms(self.low.expr(e, p.env))
+
+    # ------------------------------------------------------------------ match statements
+    def s_Match(self, st, p):
+        """``match subject: case P: ..`` for the pattern kinds that are tests of one value - class patterns without
+        sub-patterns (isinstance), literals and None / True / False, `|` of those, a bare capture / wildcard, each with
+        an optional guard - is the if / elif chain it abbreviates.  Anything that takes the subject apart (sequence,
+        mapping, attribute sub-patterns) is not modelled."""
+        subj = st.subject
+        if not isinstance(subj, ast.Name):
+            # evaluate once, into a synthetic local
+            tmp = ast.Name(id=f"__match_{st.lineno}", ctx=ast.Store())
+            asg = ast.Assign(targets=[tmp], value=subj)
+            ast.copy_location(asg, st)
+            ast.fix_missing_locations(asg)
+            subj = ast.Name(id=tmp.id, ctx=ast.Load())
+            pre = [asg]
+        else:
+            pre = []
+
+        def test_of(pat):
+            """(test expression or None for 'always', bindings [(name, value expr)]) or raise ValueError"""
+            if isinstance(pat, ast.MatchClass) and not pat.patterns and not pat.kwd_patterns:
+                return ast.Call(func=ast.Name(id="isinstance", ctx=ast.Load()), args=[subj, pat.cls], keywords=[]), []
+            if isinstance(pat, ast.MatchValue):
+                return ast.Compare(left=subj, ops=[ast.Eq()], comparators=[pat.value]), []
+            if isinstance(pat, ast.MatchSingleton):
+                return ast.Compare(left=subj, ops=[ast.Is()], comparators=[ast.Constant(value=pat.value)]), []
+            if isinstance(pat, ast.MatchAs):
+                if pat.pattern is None:
+                    return None, ([(pat.name, subj)] if pat.name else [])
+                t_, b_ = test_of(pat.pattern)
+                return t_, b_ + ([(pat.name, subj)] if pat.name else [])
+            if isinstance(pat, ast.MatchOr):
+                parts = [test_of(x) for x in pat.patterns]
+                if any(b_ for _, b_ in parts):
+                    raise ValueError("bindings inside an or-pattern")
+                if any(t_ is None for t_, _ in parts):
+                    return None, []
+                return ast.BoolOp(op=ast.Or(), values=[t_ for t_, _ in parts]), []
+            raise ValueError(type(pat).__name__)
+
+        chain = None
+        tail = None
+        try:
+            for case in st.cases:
+                t_, binds = test_of(case.pattern)
+                body = [ast.Assign(targets=[ast.Name(id=n_, ctx=ast.Store())], value=v_) for n_, v_ in binds] + list(case.body)
+                if case.guard is not None:
+                    if binds:
+                        raise ValueError("guard over a capture")
+                    t_ = case.guard if t_ is None else ast.BoolOp(op=ast.And(), values=[t_, case.guard])
+                if t_ is None:
+                    node = body
+                else:
+                    node = ast.If(test=t_, body=body, orelse=[])
+                if chain is None:
+                    chain = node if isinstance(node, list) else [node]
+                    tail = node if isinstance(node, ast.If) else None
+                elif tail is not None:
+                    tail.orelse = node if isinstance(node, list) else [node]
+                    tail = node if isinstance(node, ast.If) else None
+                if tail is None:
+                    break  # an irrefutable case ends the chain
+        except ValueError as e:
+            p.events.append(self.E("unknown", st.lineno, ("unk", f"match pattern {e}")))
+            return [p]
+        stmts = pre + (chain or [])
+        for n_ in stmts:
+            ast.copy_location(n_, st)
+            for sub in ast.walk(n_):
+                if not hasattr(sub, "lineno"):
+                    ast.copy_location(sub, st)
+            ast.fix_missing_locations(n_)
+        return self.block(stmts, [p])
 
     # ------------------------------------------------------------------ simple statements
     def s_Pass(self, st, p):
@@ -1119,6 +1677,11 @@ class _Builder:
         if isinstance(v, ast.Constant):
             return [p]
         t = self.ex(v, p)
+        if op(t) == "yieldfrom" and op(t[1]) == "call":
+            # `yield from self._iter_x(..)` with a generator helper: its yields are this function's yields
+            inl = self.inline_call(t[1], p, st.lineno, as_generator=True)
+            if inl is not None:
+                return [q for q, _ in inl]
         if op(t) in ("yield", "yieldfrom"):
             p.events.append(self.E("yield", st.lineno, t[1]))
             return [p]
@@ -1187,6 +1750,28 @@ class _Builder:
         f = t[1]
         if op(f) == "cls":
             return True
+        if op(f) == "func" and f[1] in self.model.functions:
+            # a package function every `return` of which hands back a display / f-string / non-None literal and
+            # whose body cannot fall off the end (`_split`: `return prefix, identifier` or a raise)
+            g = self.model.functions[f[1]]
+            cache = self.model.__dict__.setdefault("_never_none", {})
+            if g.qualname not in cache:
+                ok = not any(isinstance(n_, (ast.Yield, ast.YieldFrom)) for n_ in ast.walk(g.node)) and not g.decorators
+                stack = list(g.node.body)
+                n_ret = 0
+                while stack and ok:
+                    n_ = stack.pop()
+                    if isinstance(n_, (ast.FunctionDef, ast.AsyncFunctionDef, ast.Lambda, ast.ClassDef)):
+                        continue
+                    if isinstance(n_, ast.Return):
+                        v_ = n_.value
+                        n_ret += 1
+                        ok = isinstance(v_, (ast.Tuple, ast.List, ast.Dict, ast.Set, ast.JoinedStr, ast.ListComp, ast.DictComp, ast.SetComp)) or (isinstance(v_, ast.Constant) and v_.value is not None)
+                        continue
+                    stack.extend(ast.iter_child_nodes(n_))
+                last = g.node.body[-1] if g.node.body else None
+                cache[g.qualname] = ok and n_ret > 0 and isinstance(last, (ast.Return, ast.Raise))
+            return cache[g.qualname]
         if op(f) == "attr" and op(f[1]) == "cls":
             ci = self.model.classes.get(f[1][1])
             m = self.model.find_method(ci, f[2]) if ci is not None else None
@@ -1593,6 +2178,9 @@ class _Builder:
         if op(test) == "new" and test[1] in ("dict", "list", "set") and self._empty_so_far(test, p):
             # the truth value of a container this path has just created empty and not touched since
             return then_fn([p]) if (False == pol) else else_fn([p])  # noqa: E712
+        if op(test) in ("tuple", "list") and not any(op(e_) == "star" for e_ in test[1]):
+            # the truth value of a display is whether it has elements
+            return then_fn([p]) if (bool(test[1]) == pol) else else_fn([p])
         if is_const(test) and (test[1] is None or isinstance(test[1], (bool, int, str, float, bytes))):
             # the truth value of a literal (after copy propagation: `x = None` ... `if x:`) is decided
             return then_fn([p]) if (bool(test[1]) == pol) else else_fn([p])
